@@ -5,6 +5,7 @@ committed file.
 -/
 import Driver.File
 import Jamm.Model.Commit
+import Jamm.Model.CommitPages
 import Jamm.Gen.Params
 open Jamm
 
@@ -145,16 +146,13 @@ def predictOverlay (t0 : CTree) (items : List ItemS) : CTree :=
     | .bkt => { vsize := 0, isBucket := true })) (emptiedT t0)
 
 /-- the model's prediction of the committed shape of one bucket -/
-def predictBucket (pagesize : Nat) (pre : CTree) (notes : List Note) : CTree :=
+def predictBucket (pagesize : Nat) (pre : CTree) (notes : List Note) (touched : List Bytes := []) : CTree :=
   let pages := pagesOfT pre
   let steps := notes.filterMap (fun n => match n with
     | .rb pg st => if pages.contains pg then some st else none
     | .split _ => none)
-  let t := pre.rebalance steps
   let L := Gen.layout
-  -- as much fuel as the root has pieces: `spillRoot_terminates`
-  let fuel := (spillT Gen.params pagesize L.pageSize L.leafSize L.branchSize L.bmSize [] t).length
-  spillRoot Gen.params pagesize L.pageSize L.leafSize L.branchSize L.bmSize fuel t
+  commitTree Gen.params pagesize L.pageSize L.leafSize L.branchSize L.bmSize steps touched pre
 
 /-- the reported steps that concern this bucket -/
 def rbStepsFor (pre : CTree) (notes : List Note) : List RbStep :=
@@ -164,6 +162,63 @@ def rbStepsFor (pre : CTree) (notes : List Note) : List RbStep :=
     | .split _ => none)
 
 /-- the tree between `rebalance` and `spill` (for the invariants that hold there) -/
-def rebalanced (pre : CTree) (notes : List Note) : CTree := pre.rebalance (rbStepsFor pre notes)
+def rebalanced (pre : CTree) (notes : List Note) (touched : List Bytes := []) : CTree :=
+  (pre.rebalance (rbStepsFor pre notes)).touchAll touched
+
+mutual
+/-- a tree decoded from the file as a stored tree: every node unmaterialised at its page -/
+def asStoredT : Tree Bytes LeafVal → CTree
+  | .leaf p es => .leaf (mkPid p false) (es.map (fun e => (e.1, match e.2 with
+      | .kv v => ({ vsize := v.length, isBucket := false } : Ent)
+      | .bkt _ _ => { vsize := 0, isBucket := true })))
+  | .branch p kids => .branch (mkPid p false) (asStoredF kids)
+def asStoredF : Forest Bytes LeafVal → Forest Bytes Ent
+  | .nil => .nil
+  | .cons k t rest => .cons k (asStoredT t) (asStoredF rest)
+end
+
+/-- every page (with overflow runs, computed from the node contents) of a bucket and of the buckets below it -/
+partial def viewRuns (pagesize : Nat) (v : BucketView) : List Nat :=
+  treeRuns Gen.layout pagesize (asStoredT v.tree) ++ v.subs.flatMap (fun s => viewRuns pagesize s.2)
+
+def pathStr (path : List Bytes) : String := if path.isEmpty then "-" else "/".intercalate (path.map hex)
+
+def namesOf (ps : String) : List Bytes := if ps == "-" then [] else (ps.splitOn "/").map unhex
+
+/-- `InnerBucket::is_dirty`: changed itself, or a bucket opened below it is -/
+def effDirty (pretrees : List (String × Bool × CTree)) (path : List Bytes) : Bool :=
+  pretrees.any (fun (ps, d, _) => d && (namesOf ps).take path.length == path)
+
+/-- `InnerBucket::spill` re-puts the header of every nested bucket the transaction has opened below a
+bucket it commits: the names of those buckets -/
+def touchedKeys (pretrees : List (String × Bool × CTree)) (newRoot : BucketView) (path : List Bytes) : List Bytes :=
+  if !effDirty pretrees path then [] else
+  pretrees.filterMap (fun (ps, _, _) =>
+    let names := namesOf ps
+    if names.length == path.length + 1 && names.take path.length == path && (findView newRoot names).isSome
+    then names.getLast? else none)
+
+/-- Layer C → A tie: the tree pages the model says this transaction frees: for a bucket that is gone (or was
+deleted and created again) all its pages and those of the buckets below it; for a bucket the transaction
+changed, the pages of its overlay that the model's commit does not keep -/
+partial def predictFreed (pagesize : Nat) (pretrees : List (String × Bool × CTree)) (notes : List Note)
+    (newRoot : BucketView) (path : List Bytes) (old : BucketView) : List Nat :=
+  let pt := pretrees.find? (fun x => x.1 == pathStr path)
+  let recreated := match pt with | some (_, _, pre) => nodePage pre.pid == 0 | none => false
+  if (findView newRoot path).isNone || recreated then viewRuns pagesize old
+  else
+    let own := match pt with
+      | some (_, dirty, pre) =>
+        let _ := dirty
+        -- (the runs of the nodes the transaction changed are those of the stored tree it started from: a
+        -- node that shrank still occupies its old run until it is rewritten)
+        if effDirty pretrees path then
+          commitFreed Gen.layout pagesize (asStoredT old.tree) (predictBucket pagesize pre notes (touchedKeys pretrees newRoot path))
+        else []
+      | none => []
+    own ++ old.subs.flatMap (fun s => predictFreed pagesize pretrees notes newRoot (path ++ [s.1]) s.2)
+
+/-- sizes (in pages) of the runs the model requests for the tree nodes it writes -/
+def predictRequests (pagesize : Nat) (post : CTree) : List Nat := treeRequests Gen.layout pagesize post
 
 end Driver
